@@ -154,12 +154,17 @@ def run_case(scn, ctx):
                 elif mu["kind"] == "rmtree":
                     w.rmtree(p)
                 elif mu["kind"] == "rename":
-                    w.mv(p, hist.wpath(scn, mu["new"]))
+                    newp = hist.wpath(scn, mu["new"])
+                    if newp in w.files or newp in w.dirs:
+                        mu = None  # (the other spelling exists already: nothing to rename to)
+                    else:
+                        w.mv(p, newp)
                 elif mu["kind"] == "add":
                     w.put(p, "brand new")
                 elif mu["kind"] == "add_dir":
                     w.mkdir(p)
-                applied = True
+                applied = mu is not None
+                mu = mu or {"kind": "none"}
                 if mu["kind"] == "rename" and "e\u0301" in mu.get("new", ""):
                     feats.add("renamed_to_other_normal_form")
                 if "%" in posixpath.dirname(p):
